@@ -113,6 +113,9 @@ func (m *Mutex) Unlock() {
 		}
 	}
 	m.locked = false
+	if s.UnlockYields() {
+		s.Yield("unlocked " + name)
+	}
 }
 
 // RWMutex mirrors sync.RWMutex including writer preference: a pending Lock blocks new readers.
@@ -169,6 +172,9 @@ func (rw *RWMutex) Unlock() {
 	name := lockName(s, rw, "RW")
 	unaccount(s, name+".w")
 	rw.writer = false
+	if s.UnlockYields() {
+		s.Yield("wunlocked " + name)
+	}
 }
 
 func (rw *RWMutex) RLock() {
@@ -215,6 +221,9 @@ func (rw *RWMutex) RUnlock() {
 	name := lockName(s, rw, "RW")
 	unaccount(s, name+".r")
 	rw.readers--
+	if s.UnlockYields() {
+		s.Yield("runlocked " + name)
+	}
 }
 
 func unaccount(s *sched.Sim, key string) {
